@@ -54,6 +54,10 @@ func usage() {
 // a hang that would otherwise never return a verdict.
 var replayRunning int32
 
+// harnessBudget bounds the exploration of one harness (wall clock); what is left unexplored
+// when it runs out is reported as inconclusive. Set per tier in cmdCheck.
+var harnessBudget time.Duration
+
 func stallGuard() {
 	last, since := int64(-1), time.Now()
 	for {
@@ -232,6 +236,9 @@ func runHarness(l *Loaded, pkgPath, name string, cfg Config, reach []string) (*H
 	e.Models = collectModels(l.Prog)
 	e.RootPkg = sp
 	t0 := time.Now()
+	if harnessBudget > 0 {
+		e.Deadline = t0.Add(harnessBudget)
+	}
 	iw := &Worker{E: e, S: e.Pool.New(cfg.TimeoutMs)}
 	e.InitPackages(sp, iw)
 	e.Run(fn, name)
